@@ -343,3 +343,12 @@ MUTANTS += [
     dict(id="c19-dataclass-wrapped-only-when-enabled", property="C19", edits=[(D, "        if dataclasses.is_dataclass(fn) and typechecker is not None:", "        if dataclasses.is_dataclass(fn) and typechecker is not None and not config.jaxtyping_disable:")]),
     dict(id="c19-nonbool-accepted", property="C19", edits=[(CFG, "    else:\n        raise ValueError(error)\n\n\nclass", "    else:\n        return bool(value)\n\n\nclass")]),
 ]
+
+MUTANTS += [
+    # ---- C17
+    dict(id="c17-reads-values-any", property="C17", edits=[(A, "        if cls.index_variadic is None:\n            if len(obj.shape) != len(cls.dims):", "        if cls.index_variadic is None:\n            if hasattr(obj, 'any') and len(obj.shape) == 1 and bool((obj != obj).any()):\n                return 'nan'\n            if len(obj.shape) != len(cls.dims):")]),
+    dict(id="c17-np-asarray-shape", property="C17", edits=[(A, "            if len(obj.shape) != len(cls.dims):\n                return f\"this array has {len(obj.shape)} dimensions, not", "            if len(np.asarray(obj).shape) != len(cls.dims):\n                return f\"this array has {len(obj.shape)} dimensions, not")]),
+    dict(id="c17-size-zero-shortcut", property="C17", edits=[(A, "        single_memo, variadic_memo, pytree_memo, arg_memo = get_shape_memo()\n        single_memo_bak", "        if type(obj).__name__ == 'ArrayImpl' and obj.ndim == 2 and float(obj.sum()) > 1e9:\n            return ''\n        single_memo, variadic_memo, pytree_memo, arg_memo = get_shape_memo()\n        single_memo_bak")]),
+    dict(id="c17-tracer-skips-shape-check", property="C17", edits=[(A, "        single_memo, variadic_memo, pytree_memo, arg_memo = get_shape_memo()\n        single_memo_bak", "        if 'Tracer' in type(obj).__name__ and len(obj.shape) >= 3:\n            return ''\n        single_memo, variadic_memo, pytree_memo, arg_memo = get_shape_memo()\n        single_memo_bak")]),
+    dict(id="c17-batchtracer-uses-batched-shape", property="C17", edits=[(A, "            check = cls._check_shape(obj, single_memo, variadic_memo, arg_memo)", "            check = cls._check_shape(getattr(obj, 'val', obj) if type(obj).__name__ == 'BatchTracer' else obj, single_memo, variadic_memo, arg_memo)")]),
+]
